@@ -236,7 +236,7 @@ EXTRA2 = {
  'C13': 'normalize_path never yields a climbing path for any input up to 6 (8 thorough) bytes (abstract interpretation by byte class); an alias applies only on a whole-component prefix, at most once, with the target of the tested alias; the unchecked branch returns root + path minus one trailing separator.',
  'C14': 'Form text widgets validate the whole value, mark invalid text, and compare both limits with the code-point count.',
  'C15': 'Buffered filterbuf keeps byte order; base64url range drivers hand every block to the block codec at matching offsets into an exactly sized buffer for lengths 0..40; urldecode continues exactly behind each unit.',
- 'C16': 'md5_process reads the block it is handed.',
+ 'C16': 'md5_process reads the block it is handed. Buffering and padding of the bundled MD5 and SHA-1 for every pending-byte level x piece length (the stream is tiled into 64-byte blocks in order, remainder kept, bit count with carry, RFC 1321 / FIPS 180 padding and length bytes, state words read out in the right byte order); where HMAC key bytes go (zero-extended short key in both pads, long key hashed then used for both, outer hash fed the whole inner digest); key objects (key file minus trailing blanks reaches the hex decoder, every pair decoded in place, copies take data and size, reset leaves the empty key). The compression arithmetic itself is left to the pinned known-answer tests.',
  'C17': 'The recorded event set of a descriptor is the one the reactor was armed with.',
  'C18': 'read_all / write_all transfer exactly n bytes or fail and terminate (end of file fails instead of spinning); success hands out the verified bytes (empty only for stored size 0); in cross-process mode a descriptor is kept only under an exclusive fcntl lock on the file the name still refers to.',
  'C19': 'Reader cursor arithmetic (length word at the cursor, payload 4 bytes behind it, advance 4 + payload); str / mode / reset / assignment install the state; container loaders append in archive order.',
